@@ -80,3 +80,9 @@ pub mod verif_hooks_c17 {
     pub use super::file::target::verif_hooks_c17 as file;
     pub use super::mqtt::target::verif_hooks_c17 as mqtt;
 }
+
+#[cfg(feature = "verif-hooks")]
+pub mod verif_hooks_mqttconn {
+    //! Verification hooks (add-only): the mqtt-out target on a scripted broker.
+    pub use super::mqtt::target::verif_hooks_mqttconn::*;
+}
